@@ -11,6 +11,7 @@ parameters, all batch sizes and all batch partitions.
 -/
 import SharkVerif.Lemmas.Kernels
 import SharkVerif.Lemmas.KernelsPSD
+import SharkVerif.Lemmas.KernelsGaussPSD
 import SharkVerif.Lemmas.KernelDerivs
 import SharkVerif.Lemmas.KernelDerivsArd
 import Mathlib.Algebra.BigOperators.Group.List.Basic
@@ -939,5 +940,146 @@ theorem wsum_weight_hasDerivAt (exp sqrt : ℝ → ℝ) (ws : List ℝ) (ks : Li
   congr 1
   ring
 
+
+end SharkVerif.C05
+
+/-! ## 12. Gaussian and ARD kernels ARE positive semi-definite: the PSD clause without hypothesis (equal-dimension data) -/
+namespace SharkVerif.C05
+open SharkVerif.Kernels
+
+mutual
+/-- parameters in their admissible range — now without any PSD hypothesis: Gaussian `γ ≥ 0`, ARD `γ_t ≥ 0` -/
+def AdmissibleG : Kern ℝ → Prop
+  | .linear => True
+  | .poly _ c => 0 ≤ c
+  | .monomial _ => True
+  | .gauss g => 0 ≤ g
+  | .ard gs => ∀ g ∈ gs, 0 ≤ g
+  | .normalized k => AdmissibleG k
+  | .scaled f k => 0 ≤ f ∧ AdmissibleG k
+  | .wsum ws s ks => (∀ w ∈ ws, 0 ≤ w) ∧ 0 ≤ s ∧ AdmissibleGList ks
+  | .prod ks => AdmissibleGList ks
+  | .subrange _ _ k => AdmissibleG k
+  | .mapped _ _ k => AdmissibleG k
+def AdmissibleGList : List (Kern ℝ) → Prop
+  | [] => True
+  | k :: ks => AdmissibleG k ∧ AdmissibleGList ks
+end
+
+mutual
+/-- **kernel_psd_equalDim** — EVERY kernel expression with admissible parameters (Gaussian and ARD included, no
+hypothesis left) has positive semidefinite Gram matrices on every finite family of points of equal dimension `d`
+(the C++ `SIZE_CHECK`), for the real `exp` and any `sqrt`. -/
+theorem kernel_psd_equalDim (sqrt : ℝ → ℝ) : ∀ (k : Kern ℝ), AdmissibleG k → ∀ (d n : ℕ) (x : Fin n → Point ℝ),
+    (∀ i, (x i).length = d) → FamPSD x (k.eval Real.exp sqrt)
+  | .linear, _, _, _, x, _ => (dot_psd.fam x).congr fun i j => by simp only [Kern.eval]
+  | .poly deg c, h, _, _, x, _ => by
+      simp only [AdmissibleG] at h
+      exact (((dot_psd.add (IsPSD.const h)).pow deg).fam x).congr fun i j => by
+        simp only [Kern.eval, powNat_eq_pow]
+  | .monomial m, _, _, _, x, _ => ((dot_psd.pow m).fam x).congr fun i j => by simp only [Kern.eval, powNat_eq_pow]
+  | .gauss g, h, d, _, x, hx => by
+      simp only [AdmissibleG] at h
+      exact (gaussian_fam_psd g h x d hx).congr fun i j => by simp only [Kern.eval]
+  | .ard gs, h, d, _, x, hx => by
+      simp only [AdmissibleG] at h
+      exact (ard_fam_psd gs h x d hx).congr fun i j => by simp only [Kern.eval]
+  | .normalized k, h, d, n, x, hx => by
+      simp only [AdmissibleG] at h
+      exact ((kernel_psd_equalDim sqrt k h d n x hx).normalize fun a => sqrt (k.eval Real.exp sqrt a a)).congr
+        fun i j => by simp only [Kern.eval]
+  | .scaled f k, h, d, n, x, hx => by
+      simp only [AdmissibleG] at h
+      exact ((kernel_psd_equalDim sqrt k h.2 d n x hx).smul h.1).congr fun i j => by simp only [Kern.eval]
+  | .wsum ws s ks, h, d, n, x, hx => by
+      simp only [AdmissibleG] at h
+      have hfs := kernelList_psd_equalDim sqrt ks h.2.2 d n x hx
+      have := (wfold_fam x ws (ks.map fun k => k.eval Real.exp sqrt) (fun _ _ => 0) h.1 hfs (IsPSD.zero.fam x)).smul
+        (inv_nonneg.mpr h.2.1)
+      exact this.congr fun i j => by
+        simp only [Kern.eval, evalList_eq_map, List.map_map, Function.comp_def, div_eq_mul_inv]; ring
+  | .prod ks, h, d, n, x, hx => by
+      simp only [AdmissibleG] at h
+      have hfs := kernelList_psd_equalDim sqrt ks h d n x hx
+      have := pfold_fam x (ks.map fun k => k.eval Real.exp sqrt) (fun _ _ => 1) hfs ((IsPSD.const zero_le_one).fam x)
+      exact this.congr fun i j => by
+        simp only [Kern.eval, evalList_eq_map, List.map_map, Function.comp_def]
+  | .subrange a b k, h, d, n, x, hx => by
+      simp only [AdmissibleG] at h
+      have := kernel_psd_equalDim sqrt k h (min (b - a) (d - a)) n (fun i => slice a b (x i)) (fun i => by
+        simp [slice, hx i])
+      exact (FamPSD.comap (slice a b) this).congr fun i j => by simp only [Kern.eval]
+  | .mapped A b k, h, d, n, x, hx => by
+      simp only [AdmissibleG] at h
+      have := kernel_psd_equalDim sqrt k h (min A.length b.length) n (fun i => affine A b (x i)) (fun i => by
+        simp [affine])
+      exact (FamPSD.comap (affine A b) this).congr fun i j => by simp only [Kern.eval]
+theorem kernelList_psd_equalDim (sqrt : ℝ → ℝ) : ∀ (ks : List (Kern ℝ)), AdmissibleGList ks →
+    ∀ (d n : ℕ) (x : Fin n → Point ℝ), (∀ i, (x i).length = d) →
+    ∀ f ∈ ks.map (fun k => k.eval Real.exp sqrt), FamPSD x f
+  | [], _, _, _, _, _ => by simp
+  | k' :: ks, h, d, n, x, hx => by
+      simp only [AdmissibleGList] at h
+      intro f hf
+      simp only [List.map_cons, List.mem_cons] at hf
+      rcases hf with rfl | hf
+      · exact kernel_psd_equalDim sqrt k' h.1 d n x hx
+      · exact kernelList_psd_equalDim sqrt ks h.2 d n x hx f hf
+end
+
+/-- **gram_psd_equalDim** — for data of equal dimension, the matrix assembled by `calculateRegularizedKernelMatrix`
+over ANY batch partition with `reg ≥ 0` is positive semidefinite, for every admissible kernel expression
+(Gaussian and ARD included) — no PSD hypothesis. -/
+theorem gram_psd_equalDim (sqrt : ℝ → ℝ) (k : Kern ℝ) (h : AdmissibleG k) (reg : ℝ) (hreg : 0 ≤ reg)
+    (batches : List (Mat ℝ)) (d : ℕ) (hd : ∀ p ∈ batches.flatten, p.length = d) :
+    (Matrix.of fun (r c : Fin batches.flatten.length) =>
+      regularizedGram (k.evalBlock Real.exp sqrt) reg batches r c).PosSemidef := by
+  have e : (Matrix.of fun (r c : Fin batches.flatten.length) =>
+      regularizedGram (k.evalBlock Real.exp sqrt) reg batches r c) =
+      (Matrix.of fun (r c : Fin batches.flatten.length) =>
+        k.eval Real.exp sqrt (batches.flatten[r]) (batches.flatten[c])) + reg • (1 : Matrix _ _ ℝ) := by
+    ext r c
+    rw [Matrix.of_apply, kernel_gram_assembly_correct Real.exp sqrt k reg batches r c r.2 c.2]
+    by_cases hrc : r = c
+    · subst hrc; simp
+    · have : (r : ℕ) ≠ c := fun h => hrc (Fin.ext h)
+      simp [this, Matrix.one_apply_ne hrc]
+  rw [e]
+  have hfam := kernel_psd_equalDim sqrt k h d batches.flatten.length (fun i => batches.flatten[i])
+    (fun i => hd _ (List.getElem_mem _))
+  exact Matrix.PosSemidef.add hfam (Matrix.PosSemidef.one.smul hreg)
+
+/-- non-vacuity: a composed kernel with Gaussian and ARD leaves on three 2-dimensional points, batches (2,1) -/
+example : (Matrix.of fun (r c : Fin ([[[1, 2], [0, 1]], [[3, -1]]] : List (Mat ℝ)).flatten.length) =>
+    regularizedGram ((Kern.normalized (.wsum [1, 2] 3 [.gauss (1/2), .prod [.ard [1, 1/4], .poly 2 1]]) : Kern ℝ).evalBlock
+      Real.exp Real.sqrt) (1/2) [[[1, 2], [0, 1]], [[3, -1]]] r c).PosSemidef :=
+  gram_psd_equalDim Real.sqrt _ (by
+    simp only [AdmissibleG, AdmissibleGList, List.mem_cons, List.not_mem_nil, or_false, forall_eq_or_imp, forall_eq]
+    norm_num) (1/2) (by norm_num) _ 2 (by simp)
+
+end SharkVerif.C05
+
+/-! ## further non-vacuity examples -/
+namespace SharkVerif.C05
+open SharkVerif.Kernels
+
+/-- non-vacuity of `wsum_weight_hasDerivAt`: weights (1, e⁰), sub-kernels (linear, polynomial), a 1×2 block -/
+example : HasDerivAt (fun q => weightedSum ((Kern.wsum ([1, 1].set 1 (Real.exp q)) (1 + Real.exp q) [.linear, .poly 2 1]).eval Real.exp Real.sqrt)
+      [[1, -2]] [[1, 2]] [[0, 1], [3, 1]])
+    ((wsumWeightGrad Real.exp Real.sqrt [1, 1] (1 + Real.exp 0) [.linear, .poly 2 1] [[1, -2]] [[1, 2]] [[0, 1], [3, 1]]).getD 0 0) 0 :=
+  wsum_weight_hasDerivAt Real.exp Real.sqrt [1, 1] [.linear, .poly 2 1] [[1, -2]] [[1, 2]] [[0, 1], [3, 1]] 0 0 1
+    (by simp) (by simp) (by simp) (by positivity)
+
+/-- non-vacuity of `gram_psd`: a regularised Gram matrix of a composed kernel over the batch partition (2,1) -/
+example : (Matrix.of fun (r c : Fin ([[[1, 2], [0, 1]], [[3, -1]]] : List (Mat ℝ)).flatten.length) =>
+    regularizedGram ((Kern.scaled 2 (.poly 2 1) : Kern ℝ).evalBlock Real.exp Real.sqrt) (1/2)
+      [[[1, 2], [0, 1]], [[3, -1]]] r c).PosSemidef :=
+  gram_psd Real.exp Real.sqrt _ (by simp only [Admissible]; norm_num) (1/2) (by norm_num) _
+
+/-- non-vacuity of `poly_weightedInputDerivative` (degree 3) -/
+example : HasDerivAt (fun s => sumRow (fun c z => c * (Kern.poly 3 1).eval Real.exp Real.sqrt ([1, 2].set 0 s) z) [2, -1] [[0, 1], [1, 1]])
+    ((polyInputRow 3 1 [2, -1] [1, 2] [[0, 1], [1, 1]]).getD 0 0) 1 := by
+  have h := poly_weightedInputDerivative Real.exp Real.sqrt 3 (by norm_num) 1 [2, -1] [1, 2] [[0, 1], [1, 1]] 0 (by simp)
+  simpa using h
 
 end SharkVerif.C05
